@@ -28,6 +28,9 @@ type C13Scenario struct {
 	// Burst > 0 (unbounded condition-variable queues): one more task adds Burst items and then pops while the queue holds
 	// any, next to the other consumers: the backing buffer grows and is drained completely while consumers are parked on it
 	Burst int `json:"burst"`
+	// ClearWaiters (pipe/mq): goroutines blocked in WaitClear; after the final close the harness drains the queue and calls
+	// TryClear: once that returns true they must all return
+	ClearWaiters int `json:"clear_waiters"`
 }
 
 func drawC13(rt *rapid.T) interface{} {
@@ -85,6 +88,9 @@ func drawC13(rt *rapid.T) interface{} {
 	sc.HoldYields = rapid.IntRange(0, 2).Draw(rt, "hold")
 	if sc.Kind == KMux || sc.Kind == KMQ {
 		sc.CloseWaiters = rapid.IntRange(0, 2).Draw(rt, "closewaiters")
+	}
+	if sc.Kind == KMQ {
+		sc.ClearWaiters = rapid.IntRange(0, 2).Draw(rt, "clearwaiters")
 	}
 	if sc.Cap == 0 && (sc.Kind == KSyncQ || sc.Kind == KQ || sc.Kind == KAsync || sc.Kind == KMux) && rapid.IntRange(0, 7).Draw(rt, "burst") == 0 {
 		sc.Burst = rapid.SampledFrom([]int{17, 33, 70, 1100, 1100}).Draw(rt, "burstn")
@@ -382,6 +388,37 @@ func runC13(t *testing.T, sci interface{}, keepLog bool) *hx.Outcome {
 		}
 		hx.WaitDone(s, st.cons...)
 		hx.WaitDone(s, st.closeWaiters...)
+		if mq, ok := st.q.(*mQ); ok && sc.ClearWaiters > 0 {
+			var cw []*simrt.Task
+			for wi := 0; wi < sc.ClearWaiters; wi++ {
+				wi := wi
+				cw = append(cw, simrt.GoNamed(fmt.Sprintf("clearwaiter%d", wi), func() {
+					me := simrt.Cur()
+					me.EnterAPI("WaitClear")
+					err := mq.WaitClear(hx.NewCtx("waitclear"))
+					me.ExitAPI()
+					s.Logf("clearwaiter%d -> %v", wi, err)
+					if err != nil {
+						s.Fail("waitclear-error", "WaitClear with a live context returned %v", err)
+					}
+				}))
+			}
+			hx.WaitBlockedOrDone(s, cw...)
+			// drain what the consumers left, then declare the queue clear
+			for k := 0; k < 100; k++ {
+				if _, code := mq.PopAnyway(); code != OK {
+					break
+				}
+			}
+			cleared := mq.TryClear()
+			s.Logf("tryclear -> %v", cleared)
+			if !cleared || !mq.IsCleared() {
+				s.Fail("tryclear-refused", "the queue is closed and drained, TryClear returned %v (IsCleared %v)", cleared, mq.IsCleared())
+			}
+			s.Count("clear-waiters-released")
+			// every goroutine in WaitClear must return now (a stuck run reports the ones that do not)
+			hx.WaitDone(s, cw...)
+		}
 	}
 
 	res := hx.RunSim(t, sc.Knobs.Config(keepLog, 20000+150*sc.Burst), setup, main)
@@ -413,7 +450,7 @@ func TestC13(t *testing.T) {
 		Stubs: []string{"sync (simsync: Mutex, Cond with FIFO Signal)", "goroutine scheduling (simrt baton scheduler)", "time (simtime; unused here)"},
 		Rule: "scenario = queue kind x capacity x 1-4 consumer programs x 1-3 producer programs (add/prior/ctrl/close/try-close) x scheduler knobs and tape, all drawn by rapid; " +
 			"non-trivial = at least 2 tasks and 1 context switch; distinct = distinct event-log hash (schedule decisions + every operation result)",
-		Probes: []string{"close", "consumers-blocked>=2-before-producers", "priq-signal-received", "priq-pop-empty-after-signal", "close-waiter-released"},
+		Probes: []string{"close", "consumers-blocked>=2-before-producers", "priq-signal-received", "priq-pop-empty-after-signal", "close-waiter-released", "clear-waiters-released"},
 		Assumptions: []string{"simsync.Cond.Signal wakes the longest waiter (as the runtime's ticket-ordered notifyList does)",
 			"memory is sequentially consistent between preemption points (one task runs at a time)"},
 	})
